@@ -313,15 +313,17 @@ def lookupCurrent (compile : Nat → Option Nat) (build : Nat → Nat) (q : Req)
     ++ (match q.ring with | some N => (if q.rnd then [rndPick N] else pickCurrent N) | none => [])
     ++ (if q.redirect then redirectCurrent build q.id else [])
 
-/-- the shared writes of a repaired lookup, by owner type (pinned by `Generated.C06.lookupWrites`) -/
-def lookupSharedWrites : List (String × String × String) :=
-  [("GlobCache.Get", "locked", "GlobCache.h"),
-   ("GlobCache.Get", "locked", "GlobCache.l"),
-   ("GlobCache.Get", "locked", "GlobCache.m.Delete"),
-   ("GlobCache.Get", "locked", "GlobCache.m.Store"),
-   ("GlobCache.Get", "locked", "GlobCache.n"),
-   ("randIntn", "call", "var rndOnce.Do"),
-   ("rrPicker", "atomic", "Route.total")]
+/-- the shared writes of a repaired lookup as (kind, destination) — without the name of the function they sit
+in, so that extracting, inlining or renaming helpers does not matter (pinned by `Generated.C06.lookupWriteKinds`):
+the atomic cursor add, the `sync.Once` that seeds the generator, the cache bookkeeping under the lock -/
+def lookupSharedWrites : List (String × String) :=
+  [("atomic", "Route.total"),
+   ("call", "var:sync.Once.Do"),
+   ("locked", "GlobCache.h"),
+   ("locked", "GlobCache.l"),
+   ("locked", "GlobCache.m.Delete"),
+   ("locked", "GlobCache.m.Store"),
+   ("locked", "GlobCache.n")]
 
 /-! ## invariants and step classes the theorems are stated about -/
 
